@@ -1288,7 +1288,10 @@ class DiffTree:
             path = new_path
             if path is None:
                 path = old_path
-            return path
+            # Same path twice (an entry removed and a new one added in its
+            # place): removal first, whatever order iter_changes used, so that
+            # the diff does not depend on the repository format.
+            return (path, new_path is not None)
 
         def get_encoded_path(path):
             if path is not None:
